@@ -632,6 +632,26 @@ impl World {
             if desc.len() != reach.len() {
                 return Some(format!("dom{di}: descendants() yields {} of {} reachable", desc.len(), reach.len()));
             }
+            // what the iterator says about itself agrees with what it yields: count() and the size_hint bounds,
+            // from the root and from every instance (descendants_of)
+            let it = d.descendants();
+            let (lo, hi) = it.size_hint();
+            let cnt = it.count();
+            if cnt != desc.len() || lo > desc.len() || hi.map(|h| h < desc.len()).unwrap_or(false) {
+                return Some(format!("dom{di}: descendants() yields {} instances but count() = {cnt}, size_hint = ({lo}, {hi:?})", desc.len()));
+            }
+            for (l, r) in present.iter().take(12) {
+                let sub: Vec<Ref> = d.descendants_of(*r).map(|i| i.referent()).collect();
+                let it = d.descendants_of(*r);
+                let (lo, hi) = it.size_hint();
+                let cnt = it.count();
+                if cnt != sub.len() || lo > sub.len() || hi.map(|h| h < sub.len()).unwrap_or(false) {
+                    return Some(format!("dom{di}: descendants_of({l}) yields {} instances but count() = {cnt}, size_hint = ({lo}, {hi:?})", sub.len()));
+                }
+                if sub.first() != Some(r) {
+                    return Some(format!("dom{di}: descendants_of({l}) does not start with {l}"));
+                }
+            }
             for r in &desc {
                 if *r == root {
                     continue;
